@@ -44,6 +44,9 @@ def cases(draw):
     a0 = draw(st.floats(0, TWO_PI))
     sweep = draw(st.one_of(st.floats(1e-3, TWO_PI - 1e-3),
                            st.sampled_from([math.pi / 2, math.pi, 3 * math.pi / 2, 0.01, 6.2, 6.28, TWO_PI - 1e-3, TWO_PI - 2e-3, 1e-3])))
+    if draw(st.integers(0, 4)) == 0:
+        # a short arc: a few length units long whatever the radius (nearly flat for large radii)
+        sweep = min(draw(st.floats(1.05, 6.0)) / r, TWO_PI - 1e-3)
     axis = draw(st.integers(0, 5 if form == "IJ" else 2)) == 0
     if axis:
         # chord aligned with an axis: symmetric about the x or y direction through the centre
